@@ -316,10 +316,8 @@ class Loops:
             it.oblige(f"loop{ordinal}/{phase}:{name}", term, kind, site=("inv", lineno, phase, name))
 
     def assume_inv(self, it, fr, inv):
-        for name, term in self.eval_inv(it, fr, inv):
-            if name == "decreases":
-                continue
-            it.assume(term)
+        facts = [term for name, term in self.eval_inv(it, fr, inv) if name != "decreases"]
+        it.assume_all_checked(facts, f"the loop invariant {inv.name} of contract {fr.contract.name if fr.contract else '?'}")
 
     def variant(self, it, fr, inv):
         for name, term in self.eval_inv(it, fr, inv, raw=True):
